@@ -333,6 +333,7 @@ static std::string shape_of(const Plan &p) {
 }
 
 RunResult run_plan(const Plan &p, Stats *st, std::vector<uint64_t> *nontrivial_pairs);
+uint64_t g_index = 0;
 
 RunResult run_plan(const Plan &p, Stats *st) { return run_plan(p, st, nullptr); }
 
@@ -347,7 +348,7 @@ RunResult run_plan(const Plan &p, Stats *st, std::vector<uint64_t> *nt_pairs) {
     uint32_t wsum = 0; for (const Seg &g : p.segs) wsum += g.width;
     const uint64_t budget = 400000ull + 4000ull * (fmt.size() + arg_bytes + wsum);
     std::string shape = shape_of(p);
-    simrt::fatal_context("prop=C17 runseed=%llu site=ST::format shape=%s", (unsigned long long)p.seed, shape.c_str());
+    simrt::fatal_context("prop=C17 i=%llu runseed=%llu site=ST::format shape=%s", (unsigned long long)g_index, (unsigned long long)p.seed, shape.c_str());
     if (st) st->calls++;
 
     // reference: ST::format
@@ -371,7 +372,7 @@ RunResult run_plan(const Plan &p, Stats *st, std::vector<uint64_t> *nt_pairs) {
     for (const SinkCfg &k : p.sinks) {
         if (V.set) break;
         std::string site = sink_name(k.kind);
-        simrt::fatal_context("prop=C17 runseed=%llu site=%s shape=%s", (unsigned long long)p.seed, site.c_str(), shape.c_str());
+        simrt::fatal_context("prop=C17 i=%llu runseed=%llu site=%s shape=%s", (unsigned long long)g_index, (unsigned long long)p.seed, site.c_str(), shape.c_str());
         if (st) { st->pairs++; st->per_sink[k.kind % SK__COUNT]++; if (k.fault) st->sink_faults_planned++; }
         rr.pairs++;
         bool flushed_inside = false, fault_fired = false;
@@ -565,6 +566,7 @@ Plan gen_plan(uint64_t runseed) {
             else {
                 g.type = 1;
                 g.align = r.below(3); g.pad = r.below(3); g.padch = (uint8_t)(0x21 + r.below(0x5E)); if (g.padch == '{' || g.padch == '}') g.padch = '*';
+                if (r.below(12) == 0) g.padch = (uint8_t)(0x80 + r.below(0x80));      // a pad byte that is not ASCII (ST::format usually rejects the result)
                 g.prefix = r.below(4) == 0; g.plus = r.below(4) == 0;
                 g.cls = r.below(2) ? 0 : 1 + r.below(9);
                 static const uint32_t WD[] = {0, 0, 1, 2, 5, 8, 12, 20, 40, 300};
